@@ -112,7 +112,7 @@ func (e *Engine) deepComps(t types.Type, out map[string]bool) {
 
 func (e *Engine) modOfSpec(sp *FuncSpec, sig *types.Signature, pkg *ssa.Package, mi *modInfo) {
 	for _, c := range sp.Sets {
-		if g, ok := e.specs.Ghosts[c.Key]; ok {
+		if g, ok := e.specs.Ghosts[strings.SplitN(c.Key, "[", 2)[0]]; ok {
 			mi.comps[e.comp("ghost$"+g.Name, g.Sort)] = true
 		}
 	}
@@ -163,6 +163,9 @@ func (e *Engine) modTargetComps(m string, sp *FuncSpec, sig *types.Signature) ([
 	if strings.HasSuffix(m, "[*]") || strings.HasSuffix(m, "[:]") {
 		name := strings.TrimSuffix(strings.TrimSuffix(m, "[*]"), "[:]")
 		t := e.exprType(sig, sp.Pkg, name)
+		if t == nil {
+			t = e.dummyType(sig, sp.Pkg, name)
+		}
 		if t == nil {
 			return nil, fmt.Errorf("unknown %s", name)
 		}
@@ -283,28 +286,37 @@ func (e *Engine) scanBlocks(fn *ssa.Function, blocks []*ssa.BasicBlock, mi *modI
 		for _, in := range b.Instrs {
 			switch x := in.(type) {
 			case *ssa.Store:
+				if fn != nil && !blocksAreLoop(fn, blocks) && rootIsLocalAlloc(x.Addr) {
+					continue // writes to the callee's own fresh memory are invisible to callers
+				}
 				e.scanStore(x.Addr, mi)
 			case *ssa.MapUpdate:
+				if _, local := x.Map.(*ssa.MakeMap); local && fn != nil && !blocksAreLoop(fn, blocks) {
+					continue // the callee's own fresh map
+				}
 				mt := x.Map.Type().Underlying().(*types.Map)
 				d, v := e.mapComps(mt)
 				mi.comps[d] = true
 				mi.comps[v] = true
 			case *ssa.Alloc, *ssa.MakeSlice, *ssa.MakeMap, *ssa.MakeChan, *ssa.MakeClosure:
 				mi.allocs = true
-				if a, ok := x.(*ssa.Alloc); ok {
-					e.compsOfStore(nil, a.Type().(*types.Pointer).Elem(), mi.comps)
-				}
-				if ms, ok := x.(*ssa.MakeSlice); ok {
-					et := ms.Type().Underlying().(*types.Slice).Elem()
-					if _, isS := isStruct(et); !isS {
-						if _, isA := et.Underlying().(*types.Array); !isA {
-							mi.comps[e.elemComp(et)] = true
+				if fn == nil || blocksAreLoop(fn, blocks) {
+					// inside a loop of the function under verification the zero-initialisation is a visible write
+					if a, ok := x.(*ssa.Alloc); ok {
+						e.compsOfStore(nil, a.Type().(*types.Pointer).Elem(), mi.comps)
+					}
+					if ms, ok := x.(*ssa.MakeSlice); ok {
+						et := ms.Type().Underlying().(*types.Slice).Elem()
+						if _, isS := isStruct(et); !isS {
+							if _, isA := et.Underlying().(*types.Array); !isA {
+								mi.comps[e.elemComp(et)] = true
+							}
 						}
 					}
-				}
-				if mm, ok := x.(*ssa.MakeMap); ok {
-					d, _ := e.mapComps(mm.Type().Underlying().(*types.Map))
-					mi.comps[d] = true
+					if mm, ok := x.(*ssa.MakeMap); ok {
+						d, _ := e.mapComps(mm.Type().Underlying().(*types.Map))
+						mi.comps[d] = true
+					}
 				}
 			case *ssa.Convert:
 				if sl, ok := x.Type().Underlying().(*types.Slice); ok && isStr(x.X.Type()) {
@@ -390,11 +402,32 @@ func (e *Engine) scanCall(fn *ssa.Function, cc *ssa.CallCommon, mi *modInfo, bus
 	case *ssa.Function:
 		sub := e.modOf(v, busy)
 		mergeMod(mi, sub)
+		if sp := e.specs.Funcs[v.String()]; sp != nil && sp.Attrs["inline"] {
+			// an inlined callee calls its function-typed parameters: account for the closures passed here
+			for _, a := range cc.Args {
+				if _, isFn := a.Type().Underlying().(*types.Signature); !isFn {
+					continue
+				}
+				if mc, ok := a.(*ssa.MakeClosure); ok {
+					mergeMod(mi, e.modOf(mc.Fn.(*ssa.Function), busy))
+				} else if f, ok := a.(*ssa.Function); ok {
+					mergeMod(mi, e.modOf(f, busy))
+				} else {
+					mi.all = true
+				}
+			}
+		}
 		return
 	case *ssa.MakeClosure:
 		sub := e.modOf(v.Fn.(*ssa.Function), busy)
 		mergeMod(mi, sub)
 		return
+	}
+	// a function-typed parameter called inside a function that is always inlined: accounted for at the call site
+	if _, isParam := cc.Value.(*ssa.Parameter); isParam && fn != nil {
+		if sp := e.specs.Funcs[fn.String()]; sp != nil && sp.Attrs["inline"] {
+			return
+		}
 	}
 	// dynamic call through a function value: look for closures created in this function
 	found := false
@@ -1096,7 +1129,8 @@ func (fr *Frame) applyContract(sp *FuncSpec, name string, sig *types.Signature, 
 		e.noteFacts(env, c.Expr, fr.cur.reach)
 	}
 	for _, c := range sp.Sets {
-		g, ok := e.specs.Ghosts[c.Key]
+		gname := strings.SplitN(c.Key, "[", 2)[0]
+		g, ok := e.specs.Ghosts[gname]
 		if !ok {
 			e.unsupported = append(e.unsupported, fmt.Sprintf("%s: sets: unknown ghost %s", short, c.Key))
 			continue
@@ -1106,7 +1140,22 @@ func (fr *Frame) applyContract(sp *FuncSpec, name string, sig *types.Signature, 
 			e.unsupported = append(e.unsupported, fmt.Sprintf("%s: sets %s: %v", short, c.Key, err))
 			continue
 		}
-		e.set(fr.cur.st, e.comp("ghost$"+g.Name, g.Sort), v.T)
+		comp := e.comp("ghost$"+g.Name, g.Sort)
+		if strings.Contains(c.Key, "[") && strings.HasSuffix(c.Key, "]") {
+			ix, err := ParseExpr(c.Key[len(gname)+1 : len(c.Key)-1])
+			if err != nil {
+				e.unsupported = append(e.unsupported, fmt.Sprintf("%s: sets %s: %v", short, c.Key, err))
+				continue
+			}
+			iv, err := env.Val(ix)
+			if err != nil {
+				e.unsupported = append(e.unsupported, fmt.Sprintf("%s: sets %s: %v", short, c.Key, err))
+				continue
+			}
+			e.set(fr.cur.st, comp, "(store "+e.get(fr.cur.st, comp)+" "+iv.T+" "+v.T+")")
+		} else {
+			e.set(fr.cur.st, comp, v.T)
+		}
 	}
 	if sp.Trusted {
 		e.assume("trusted contract: " + name)
@@ -1635,4 +1684,66 @@ func (e *Engine) globalFunc(g *ssa.Global) *ssa.Function {
 		return found
 	}
 	return nil
+}
+
+// the address is (a field / element of) a local allocation of the enclosing function
+func rootIsLocalAlloc(v ssa.Value) bool {
+	for i := 0; i < 8; i++ {
+		switch x := v.(type) {
+		case *ssa.Alloc:
+			return true
+		case *ssa.FieldAddr:
+			v = x.X
+		case *ssa.IndexAddr:
+			if _, isSlice := x.X.Type().Underlying().(*types.Slice); isSlice {
+				return false
+			}
+			v = x.X
+		default:
+			return false
+		}
+	}
+	return false
+}
+
+// scanBlocks is used both for whole functions (callee summaries) and for loop bodies of the function being
+// executed; only in the latter case are the blocks a strict subset of the function
+func blocksAreLoop(fn *ssa.Function, blocks []*ssa.BasicBlock) bool {
+	return len(blocks) < len(fn.Blocks)
+}
+
+// static type of a contract expression over the parameters of sig (values are dummies; only the type is used)
+func (e *Engine) dummyType(sig *types.Signature, pkg string, expr string) (t types.Type) {
+	defer func() {
+		if r := recover(); r != nil {
+			t = nil
+		}
+	}()
+	ex, err := ParseExpr(expr)
+	if err != nil {
+		return nil
+	}
+	env := &Env{e: e, pkg: e.pkgTypes(pkg), names: map[string]Val{}, st: &State{comps: map[string]string{}, base: "dummy"}}
+	if sig.Recv() != nil {
+		env.names["this"] = Val{T: "0", Ty: sig.Recv().Type()}
+		if n := sig.Recv().Name(); n != "" && n != "_" {
+			env.names[n] = Val{T: "0", Ty: sig.Recv().Type()}
+		}
+	}
+	for i := 0; i < sig.Params().Len(); i++ {
+		p := sig.Params().At(i)
+		env.names[fmt.Sprintf("arg%d", i)] = Val{T: "0", Ty: p.Type()}
+		if p.Name() != "" && p.Name() != "_" {
+			env.names[p.Name()] = Val{T: "0", Ty: p.Type()}
+		}
+	}
+	if _, ok := env.names["this"]; !ok {
+		// interface method contracts: the receiver is the interface value
+		env.names["this"] = Val{T: "0", Ty: types.NewInterfaceType(nil, nil)}
+	}
+	v, err := env.Val(ex)
+	if err != nil {
+		return nil
+	}
+	return v.Ty
 }
